@@ -12,6 +12,7 @@ def run(pid, only=None, timeout=10000):
     mod = importlib.import_module(f'contracts.{pid.lower()}')
     mod.register(reg)
     load_enums(reg, src)
+    from pyvc.driver import load_facts; load_facts(reg)
     v = Verifier(src, reg, pid)
     for key, c in reg.contracts.items():
         if c.assumed or not c.verify: continue
